@@ -375,7 +375,9 @@ impl<'s> Printer<'s> {
             CondGroup(n, y, no) => {
                 self.cond_ref(*n);
                 self.p(y, 1);
-                if **no != Empty {
+                // both branches empty: the `|` has to be written, `(?(1))` alone is the
+                // group-exists test
+                if **no != Empty || **y == Empty {
                     self.t("|");
                     self.p(no, 0);
                 }
@@ -386,7 +388,7 @@ impl<'s> Printer<'s> {
                 self.p(c, 0);
                 self.t(")");
                 self.p(y, 1);
-                if **no != Empty {
+                if **no != Empty || **y == Empty {
                     self.t("|");
                     self.p(no, 0);
                 }
